@@ -1,8 +1,694 @@
 import QP.Base
+/-!
+# C17 — model of `qupulse.program.linspace`
+
+* the LinSpace AST (`LinSpaceHold` / `LinSpaceRepeat` / `LinSpaceIter`),
+* `to_increment_commands` = `_TranslationState.add_node` with the explicit translation state
+  (`label_num`, `commands`, `iterations`, `active_dep`, `dep_states`, `plain_voltage`, `resolution`)
+  including the "hackedy" first-pass unrolling of `_add_repetition_node`,
+* `LinSpaceVM` (`set_commands` / `step` / `run`, the `while` loop with fuel),
+* `ProgramEntry._transform_linspace_commands` (amplitude / offset scaling of the commands),
+* the SPEC `unrollStairs`: the staircase of a LinSpace program by plain recursion over the AST.
+
+The model mirrors the code that exists: where Python raises, the model returns `.error <class>`.
+Floats are `Rat` (the harness keeps values on a dyadic grid where float arithmetic is exact).
+`LinSpaceArbitraryWaveform` / `Play` and index dependent durations are outside the property
+(the VM raises `NotImplementedError` for them) and are not modelled.
+-/
 namespace QP.C17
+
+inductive Err where
+  | assertion      -- an `assert` of the Python code fails
+  | keyError       -- `dict[...]` on a missing key (register / label)
+  | indexError     -- channel index outside the VM's channel tuple / the transformation list
+  | zeroDivision   -- amplitude 0 in `_transform_linspace_commands`
+  | notImplemented -- `change_state` on a control command
+  | fuel           -- the model ran out of fuel (the Python `while` would still be running)
+  deriving Repr, BEq, DecidableEq
+
+/-- `DepKey.factors` -/
+abbrev Key := List Int
+
+/-- `DepState` -/
+structure DepState where
+  base : Rat
+  its : List Nat
+  deriving Repr, BEq, DecidableEq
+
+/-- LinSpace AST. A hold carries per channel the base voltage and `none` (plain float voltage) or the
+factors per enclosing iteration (outermost first). -/
+inductive Node where
+  | hold (bases : List Rat) (factors : List (Option (List Rat))) (dur : Rat)
+  | rep (body : List Node) (count : Nat)
+  | iter (body : List Node) (length : Nat)
+
+inductive Cmd where
+  | set (ch : Nat) (v : Rat) (key : Key)
+  | inc (ch : Nat) (v : Rat) (key : Key)
+  | wait (d : Rat)
+  | label (idx : Nat) (count : Int)
+  | jmp (idx : Nat)
+  deriving Repr, BEq, DecidableEq
+
+/-! ## DepKey -/
+
+/-- Python's `round(x)` (banker's rounding to an integer) -/
+def roundHalfEven (x : Rat) : Int :=
+  let f := x.floor
+  let d := x - f
+  if d < (1:Rat)/2 then f else if (1:Rat)/2 < d then f + 1 else if f % 2 = 0 then f else f + 1
+
+/-- `while voltages and voltages[-1] == 0: voltages = voltages[:-1]` -/
+def stripZeros : List Rat → List Rat
+  | [] => []
+  | x :: xs =>
+    match stripZeros xs with
+    | [] => if x = 0 then [] else [x]
+    | y :: ys => x :: y :: ys
+
+/-- `DepKey.from_voltages(voltages, resolution)` -/
+def depKey (res : Rat) (fs : List Rat) : Key :=
+  (stripZeros fs).map (fun v => roundHalfEven (v / res))
+
+/-! ## finite maps as functions -/
+
+def upd {α} (m : Nat → Option α) (k : Nat) (v : α) : Nat → Option α :=
+  fun k' => if k' = k then some v else m k'
+
+def upd2 {α} (m : Nat → Key → Option α) (c : Nat) (k : Key) (v : α) : Nat → Key → Option α :=
+  fun c' k' => if c' = c ∧ k' = k then some v else m c' k'
+
+/-! ## `DepState.required_increment_from` -/
+
+def reqIncGo : List Nat → List Nat → List Rat → Rat → Except Err Rat
+  | o :: os, n :: ns, f :: fs, acc =>
+    if o = n then reqIncGo os ns fs acc
+    else if o < n then
+      (if o = 0 then reqIncGo os ns fs (acc + f) else .error .assertion)
+    else
+      (if n = 0 then reqIncGo os ns fs (acc - f * (o : Rat)) else .error .assertion)
+  | _, _, _, acc => .ok acc
+
+/-- `new.required_increment_from(previous, factors)` -/
+def reqInc (new prev : DepState) (fs : List Rat) : Except Err Rat :=
+  if new.its.length ≠ prev.its.length then .error .assertion
+  else if new.its.length ≠ fs.length then .error .assertion
+  else reqIncGo prev.its new.its fs (new.base - prev.base)
+
+/-! ## `dependencies()` -/
+
+/-- `LinSpaceHold.dependencies`: channel ↦ {factors} for truthy factor tuples, as (channel, dep) pairs -/
+def depsHold : List (Option (List Rat)) → Nat → List (Nat × List Rat)
+  | [], _ => []
+  | none :: fs, c => depsHold fs (c + 1)
+  | some [] :: fs, c => depsHold fs (c + 1)
+  | some (x :: xs) :: fs, c => (c, x :: xs) :: depsHold fs (c + 1)
+
+/-- the filter of `LinSpaceIter.dependencies` applied to the dependencies of ONE body node:
+the group of a channel is kept (with every dep shortened by its last entry) unless all of its
+shortened deps are `()` -/
+def depsIterBody (ps : List (Nat × List Rat)) : List (Nat × List Rat) :=
+  ps.filterMap (fun p =>
+    if ps.any (fun q => q.1 = p.1 ∧ q.2.dropLast ≠ []) then some (p.1, p.2.dropLast) else none)
+
+mutual
+/-- `node.dependencies()` as a list of (channel, dep) pairs (set semantics: only membership matters) -/
+def deps : Node → List (Nat × List Rat)
+  | .hold _ factors _ => depsHold factors 0
+  | .rep body _ => depsList body
+  | .iter body _ => depsIterList body
+/-- union over a body (`LinSpaceRepeat.dependencies`) -/
+def depsList : List Node → List (Nat × List Rat)
+  | [] => []
+  | n :: ns => deps n ++ depsList ns
+/-- `LinSpaceIter.dependencies`: per body node the shortened groups -/
+def depsIterList : List Node → List (Nat × List Rat)
+  | [] => []
+  | n :: ns => depsIterBody (deps n) ++ depsIterList ns
+end
+
+/-! ## `_TranslationState` -/
+
+structure TState where
+  labelNum : Nat
+  commands : List Cmd
+  iterations : List Nat
+  activeDep : Nat → Option Key
+  depStates : Nat → Key → Option DepState
+  plainVoltage : Nat → Option Rat
+  resolution : Rat
+
+def TState.init (res : Rat) : TState :=
+  ⟨0, [], [], fun _ => none, fun _ _ => none, fun _ => none, res⟩
+
+def TState.emit (st : TState) (c : Cmd) : TState := { st with commands := st.commands ++ [c] }
+
+/-- `get_dependency_state`: the set of looked-up states, as a list -/
+def depLookup (st : TState) (ds : List (Nat × List Rat)) : List (Option DepState) :=
+  ds.map (fun p => st.depStates p.1 (depKey st.resolution p.2))
+
+/-- equality of Python `set`s represented as lists -/
+def sameSet (a b : List (Option DepState)) : Bool :=
+  a.all (fun x => b.contains x) && b.all (fun x => a.contains x)
+
+/-- `set_voltage` -/
+def setVoltage (st : TState) (ch : Nat) (v : Rat) : TState :=
+  if st.activeDep ch ≠ some [] ∨ st.plainVoltage ch ≠ some v then
+    { st.emit (.set ch v []) with
+        activeDep := upd st.activeDep ch [], plainVoltage := upd st.plainVoltage ch v }
+  else st
+
+/-- `_set_indexed_voltage` -/
+def setIndexedVoltage (st : TState) (ch : Nat) (base : Rat) (fs : List Rat) : Except Err TState :=
+  let key := depKey st.resolution fs
+  let new : DepState := ⟨base, st.iterations⟩
+  match st.depStates ch key with
+  | none =>
+    if st.iterations.all (fun i => i = 0) then
+      .ok { st.emit (.set ch base key) with
+              activeDep := upd st.activeDep ch key, depStates := upd2 st.depStates ch key new }
+    else .error .assertion
+  | some cur =>
+    match reqInc new cur fs with
+    | .error e => .error e
+    | .ok inc =>
+      let st' := if inc ≠ 0 ∨ st.activeDep ch ≠ some key then st.emit (.inc ch inc key) else st
+      .ok { st' with activeDep := upd st.activeDep ch key, depStates := upd2 st.depStates ch key new }
+
+/-- the channel loop of `_add_hold_node` (`enumerate(zip(bases, factors))`) -/
+def addHoldChannels : List Rat → List (Option (List Rat)) → Nat → TState → Except Err TState
+  | b :: bs, none :: fs, ch, st => addHoldChannels bs fs (ch + 1) (setVoltage st ch b)
+  | b :: bs, some facs :: fs, ch, st =>
+    match setIndexedVoltage st ch b facs with
+    | .error e => .error e
+    | .ok st' => addHoldChannels bs fs (ch + 1) st'
+  | _, _, _, st => .ok st
+
+mutual
+/-- `add_node` for a single node -/
+def addNode : Node → TState → Except Err TState
+  | .hold bases factors dur, st =>
+    match addHoldChannels bases factors 0 st with
+    | .error e => .error e
+    | .ok st' => .ok (st'.emit (.wait dur))
+  | .rep body count, st =>
+    -- `_add_repetition_node`
+    let ds := depsList body
+    let pre := depLookup st ds
+    let lbl := st.labelNum
+    let st1 := { st with labelNum := st.labelNum + 1 }
+    let pos := st1.commands.length
+    let st2 := st1.emit (.label lbl count)
+    match addNodes body st2 with
+    | .error e => .error e
+    | .ok st3 =>
+      let post := depLookup st3 ds
+      if sameSet pre post then .ok (st3.emit (.jmp lbl))
+      else
+        -- hackedy: `commands.pop(initial_position); commands.append(label); label.count -= 1`
+        let st4 := { st3 with commands := st3.commands.eraseIdx pos ++ [.label lbl ((count : Int) - 1)] }
+        match addNodes body st4 with
+        | .error e => .error e
+        | .ok st5 => .ok (st5.emit (.jmp lbl))
+  | .iter body length, st =>
+    -- `_add_iteration_node`
+    let st1 := { st with iterations := st.iterations ++ [0] }
+    match addNodes body st1 with
+    | .error e => .error e
+    | .ok st2 =>
+      if length > 1 then
+        let st3 := { st2 with iterations := st2.iterations.dropLast ++ [length - 1] }
+        let lbl := st3.labelNum
+        let st4 := { st3 with labelNum := st3.labelNum + 1 }
+        let st5 := st4.emit (.label lbl ((length : Int) - 1))
+        match addNodes body st5 with
+        | .error e => .error e
+        | .ok st6 =>
+          let st7 := st6.emit (.jmp lbl)
+          .ok { st7 with iterations := st7.iterations.dropLast }
+      else .ok { st2 with iterations := st2.iterations.dropLast }
+/-- `add_node` for a sequence of nodes -/
+def addNodes : List Node → TState → Except Err TState
+  | [], st => .ok st
+  | n :: ns, st =>
+    match addNode n st with
+    | .error e => .error e
+    | .ok st' => addNodes ns st'
+end
+
+/-- `to_increment_commands` (with the resolution explicit) -/
+def translate (res : Rat) (prog : List Node) : Except Err (List Cmd) :=
+  match addNodes prog (TState.init res) with
+  | .error e => .error e
+  | .ok st => .ok st.commands
+
+/-! ## `LinSpaceVM` -/
+
+/-- data part of the VM: `time`, `current_values` (`none` = the initial NaN), `registers`, `history` -/
+structure VM where
+  time : Rat
+  cur : List (Option Rat)
+  regs : Nat → Key → Option Rat
+  hist : List (Rat × List (Option Rat))
+
+def VM.init (nch : Nat) : VM := ⟨0, List.replicate nch none, fun _ _ => none, []⟩
+
+/-- `change_state` -/
+def changeState (cmd : Cmd) (vm : VM) : Except Err VM :=
+  match cmd with
+  | .wait d => .ok { vm with hist := vm.hist ++ [(vm.time, vm.cur)], time := vm.time + d }
+  | .set ch v key =>
+    if ch < vm.cur.length then
+      .ok { vm with cur := vm.cur.set ch (some v), regs := upd2 vm.regs ch key v }
+    else .error .indexError
+  | .inc ch v key =>
+    if ch < vm.cur.length then
+      match vm.regs ch key with
+      | none => .error .keyError
+      | some x => .ok { vm with cur := vm.cur.set ch (some (x + v)), regs := upd2 vm.regs ch key (x + v) }
+    else .error .indexError
+  | _ => .error .notImplemented
+
+/-- the label pass of `set_commands`: `label_targets[idx] = position + 1`, duplicates assert -/
+def buildTargets : List Cmd → Nat → (Nat → Option Nat) → Except Err (Nat → Option Nat)
+  | [], _, tg => .ok tg
+  | .label i _ :: cs, pos, tg =>
+    if (tg i).isSome then .error .assertion else buildTargets cs (pos + 1) (upd tg i (pos + 1))
+  | _ :: cs, pos, tg => buildTargets cs (pos + 1) tg
+
+/-- `run`: `while current_command < len(commands): step()` -/
+def runLoop (cmds : List Cmd) (tg : Nat → Option Nat) :
+    Nat → Nat → (Nat → Option Int) → VM → Except Err VM
+  | 0, pc, _, vm => if pc < cmds.length then .error .fuel else .ok vm
+  | fuel + 1, pc, counts, vm =>
+    match cmds[pc]? with
+    | none => .ok vm
+    | some (.jmp i) =>
+      match counts i with
+      | none => .error .keyError
+      | some c =>
+        if c > 0 then
+          match tg i with
+          | none => .error .keyError
+          | some t => runLoop cmds tg fuel t (upd counts i (c - 1)) vm
+        else runLoop cmds tg fuel (pc + 1) counts vm
+    | some (.label i c) => runLoop cmds tg fuel (pc + 1) (upd counts i (c - 1)) vm
+    | some cmd =>
+      match changeState cmd vm with
+      | .error e => .error e
+      | .ok vm' => runLoop cmds tg fuel (pc + 1) counts vm'
+
+abbrev History := List (Rat × List (Option Rat))
+
+/-- `vm = LinSpaceVM(nch); vm.set_commands(cmds); vm.run()`; result `(vm.history, vm.time)` -/
+def run (fuel : Nat) (nch : Nat) (cmds : List Cmd) : Except Err (History × Rat) :=
+  match buildTargets cmds 0 (fun _ => none) with
+  | .error e => .error e
+  | .ok tg =>
+    match runLoop cmds tg fuel 0 (fun _ => none) (VM.init nch) with
+    | .error e => .error e
+    | .ok vm => .ok (vm.hist, vm.time)
+
+/-! ## `ProgramEntry._transform_linspace_commands` (no voltage transformation callable) -/
+
+def scaleCmd (amps offs : List Rat) : Cmd → Except Err Cmd
+  | .inc ch v k =>
+    match amps[ch]?, offs[ch]? with
+    | some a, some _ => if a = 0 then .error .zeroDivision else .ok (.inc ch (v / a) k)
+    | _, _ => .error .indexError
+  | .set ch v k =>
+    match amps[ch]?, offs[ch]? with
+    | some a, some o => if a = 0 then .error .zeroDivision else .ok (.set ch ((v - o) / a) k)
+    | _, _ => .error .indexError
+  | c => .ok c
+
+def scale (amps offs : List Rat) : List Cmd → Except Err (List Cmd)
+  | [] => .ok []
+  | c :: cs =>
+    match scaleCmd amps offs c with
+    | .error e => .error e
+    | .ok c' =>
+      match scale amps offs cs with
+      | .error e => .error e
+      | .ok cs' => .ok (c' :: cs')
+
+/-- the affine map the hardware scaling applies to the voltage of channel `ch` -/
+def affineVal (amps offs : List Rat) (ch : Nat) (v : Rat) : Rat :=
+  (v - offs[ch]?.getD 0) / amps[ch]?.getD 1
+
+def affineVals (amps offs : List Rat) : Nat → List (Option Rat) → List (Option Rat)
+  | _, [] => []
+  | ch, v :: vs => v.map (affineVal amps offs ch) :: affineVals amps offs (ch + 1) vs
+
+def affineHist (amps offs : List Rat) (h : History) : History :=
+  h.map (fun p => (p.1, affineVals amps offs 0 p.2))
+
+/-! ## SPEC: the staircase of a LinSpace program, by plain recursion over the AST -/
+
+/-- `Σ_k fs[k] * env[k]` -/
+def dot : List Rat → List Nat → Rat
+  | f :: fs, e :: es => f * (e : Rat) + dot fs es
+  | _, _ => 0
+
+/-- voltage of one channel of a hold when the enclosing iterations are at indices `env` -/
+def holdValue (env : List Nat) (b : Rat) (f : Option (List Rat)) : Rat :=
+  match f with
+  | none => b
+  | some fs => b + dot fs env
+
+def repeatApp {α} (xs : List α) : Nat → List α
+  | 0 => []
+  | n + 1 => xs ++ repeatApp xs n
+
+def iterApp {α} (f : Nat → List α) : Nat → List α
+  | 0 => []
+  | n + 1 => iterApp f n ++ f n
+
+mutual
+/-- the (duration, voltages) steps a node plays, `env` = indices of the enclosing iterations -/
+def steps (env : List Nat) : Node → List (Rat × List Rat)
+  | .hold bases factors dur => [(dur, List.zipWith (holdValue env) bases factors)]
+  | .rep body count => repeatApp (stepsList env body) count
+  | .iter body length => iterApp (fun m => stepsList (env ++ [m]) body) length
+def stepsList (env : List Nat) : List Node → List (Rat × List Rat)
+  | [] => []
+  | n :: ns => steps env n ++ stepsList env ns
+end
+
+/-- attach start times -/
+def withTimes : Rat → List (Rat × List Rat) → List (Rat × List Rat)
+  | _, [] => []
+  | t, (d, v) :: rest => (t, v) :: withTimes (t + d) rest
+
+def totalDur : List (Rat × List Rat) → Rat
+  | [] => 0
+  | (d, _) :: rest => d + totalDur rest
+
+/-- SPEC: the (start time, per-channel voltage) steps of the program and its total duration -/
+def unrollStairs (prog : List Node) : List (Rat × List Rat) × Rat :=
+  (withTimes 0 (stepsList [] prog), totalDur (stepsList [] prog))
+
+/-- the VM history a faithful execution produces for a staircase -/
+def asHistory (s : List (Rat × List Rat)) : History := s.map (fun p => (p.1, p.2.map some))
+
+/-! ## Judge: two staircases agree within a tolerance -/
+
+def valsMatch (tol : Rat) : List (Option Rat) → List (Option Rat) → Prop
+  | [], [] => True
+  | some a :: as, some b :: bs => (a - b ≤ tol ∧ b - a ≤ tol) ∧ valsMatch tol as bs
+  | _, _ => False
+
+def StairsMatch (tol : Rat) : History → History → Prop
+  | [], [] => True
+  | (t, v) :: r, (t', v') :: r' => t = t' ∧ valsMatch tol v v' ∧ StairsMatch tol r r'
+  | _, _ => False
+
+def valsMatchB (tol : Rat) : List (Option Rat) → List (Option Rat) → Bool
+  | [], [] => true
+  | some a :: as, some b :: bs => decide (a - b ≤ tol) && decide (b - a ≤ tol) && valsMatchB tol as bs
+  | _, _ => false
+
+/-- executable twin of `StairsMatch` (the judge) -/
+def stairsMatchB (tol : Rat) : History → History → Bool
+  | [], [] => true
+  | (t, v) :: r, (t', v') :: r' => decide (t = t') && valsMatchB tol v v' && stairsMatchB tol r r'
+  | _, _ => false
+
+/-- which clause fails first (for replay files) -/
+def judgeStairs (tol : Rat) : Nat → History → History → String
+  | _, [], [] => "ok"
+  | i, (t, v) :: r, (t', v') :: r' =>
+    if t ≠ t' then s!"time-at-step-{i}"
+    else if ¬ valsMatchB tol v v' then s!"voltage-at-step-{i}"
+    else judgeStairs tol (i + 1) r r'
+  | i, _, _ => s!"length-differs-at-step-{i}"
+
+/-! ## Fragment and known-finding class predicates -/
+
+/-- all (channel, factors) pairs of indexed holds: the registers a program touches -/
+def touchesHold : List (Option (List Rat)) → Nat → List (Nat × List Rat)
+  | [], _ => []
+  | none :: fs, c => touchesHold fs (c + 1)
+  | some f :: fs, c => (c, f) :: touchesHold fs (c + 1)
+
+/-- channels with a plain (float) hold -/
+def plainsHold : List (Option (List Rat)) → Nat → List Nat
+  | [], _ => []
+  | none :: fs, c => c :: plainsHold fs (c + 1)
+  | some _ :: fs, c => plainsHold fs (c + 1)
+
+mutual
+def touches : Node → List (Nat × List Rat)
+  | .hold _ factors _ => touchesHold factors 0
+  | .rep body _ => touchesList body
+  | .iter body _ => touchesList body
+def touchesList : List Node → List (Nat × List Rat)
+  | [] => []
+  | n :: ns => touches n ++ touchesList ns
+end
+
+mutual
+def plains : Node → List Nat
+  | .hold _ factors _ => plainsHold factors 0
+  | .rep body _ => plainsList body
+  | .iter body _ => plainsList body
+def plainsList : List Node → List Nat
+  | [] => []
+  | n :: ns => plains n ++ plainsList ns
+end
+
+mutual
+def hasRep : Node → Bool
+  | .hold .. => false
+  | .rep .. => true
+  | .iter body _ => hasRepList body
+def hasRepList : List Node → Bool
+  | [] => false
+  | n :: ns => hasRep n || hasRepList ns
+end
+
+mutual
+/-- shape the builder guarantees: every hold has `nch` channels, indexed factors have one entry per
+enclosing iteration, iteration lengths and repetition counts are positive -/
+def wellFormed (nch : Nat) : Nat → Node → Bool
+  | d, .hold bases factors _ =>
+    bases.length == nch && factors.length == nch &&
+      factors.all (fun f => match f with | none => true | some fs => fs.length == d)
+  | d, .rep body count => decide (count ≥ 1) && wellFormedList nch d body
+  | d, .iter body length => decide (length ≥ 1) && wellFormedList nch (d + 1) body
+def wellFormedList (nch : Nat) : Nat → List Node → Bool
+  | _, [] => true
+  | d, n :: ns => wellFormed nch d n && wellFormedList nch d ns
+end
+
+/-- registers are used faithfully: on one channel, equal keys mean equal factor tuples (same factors
+up to the resolution AND same nesting depth) -/
+def keyInj (res : Rat) (g : List (Nat × List Rat)) : Bool :=
+  g.all (fun p => g.all (fun q =>
+    !(p.1 == q.1 && depKey res p.2 == depKey res q.2) || p.2 == q.2))
+
+/-- no channel mixes plain holds with an indexed hold whose key is `()` -/
+def separated (res : Rat) (g : List (Nat × List Rat)) (pl : List Nat) : Bool :=
+  g.all (fun p => !(depKey res p.2 == [] && pl.contains p.1))
+
+/-- KF-C17-depth: on one channel the same key is used at two nesting depths
+(`DepKey.from_voltages` strips trailing zeros) — `required_increment_from` asserts -/
+def inDepthClash (res : Rat) (prog : List Node) : Bool :=
+  let g := touchesList prog
+  g.any (fun p => g.any (fun q =>
+    p.1 == q.1 && depKey res p.2 == depKey res q.2 && p.2.length != q.2.length))
+
+/-- KF-C17-zerokey: a channel has a plain hold and an indexed hold whose factors all round to 0:
+both use the VM register `()` but are tracked separately by the translator -/
+def inZeroKey (res : Rat) (prog : List Node) : Bool :=
+  !separated res (touchesList prog) (plainsList prog)
+
+/-- same key, same depth, different factors: the resolution merges two registers (the increments
+then differ by less than the resolution per iteration; outside the exact model) -/
+def resCollision (res : Rat) (prog : List Node) : Bool :=
+  let g := touchesList prog
+  g.any (fun p => g.any (fun q =>
+    p.1 == q.1 && depKey res p.2 == depKey res q.2 && p.2.length == q.2.length && p.2 != q.2))
+
+/-! ### PF-22 class: the state sweep
+
+The translation state apart from the commands evolves independently of what is emitted:
+`dep_states[ch][key] := (base, iterations)`, `active_dep[ch] := key`, `plain_voltage[ch] := v`.
+`sweep` replays exactly that evolution (including the second pass of an iteration and of a
+"hackedy" repetition) and records whether a repetition node is visited in a state for which the
+emitted loop is wrong:
+* the Python test `pre_dep_state != post_dep_state` fires and `count = 1` (label count 0 still plays
+  the body once more), or
+* it does not fire although the body changes an entry (`dep_states`, `active_dep`, `plain_voltage`)
+  that was present before the body — later passes replay relative commands from the wrong origin. -/
+
+structure Sweep where
+  iterations : List Nat
+  activeDep : Nat → Option Key
+  depStates : Nat → Key → Option DepState
+  plainVoltage : Nat → Option Rat
+  flagged : Bool
+
+def Sweep.init : Sweep := ⟨[], fun _ => none, fun _ _ => none, fun _ => none, false⟩
+
+def sweepHold (res : Rat) : List Rat → List (Option (List Rat)) → Nat → Sweep → Sweep
+  | b :: bs, none :: fs, ch, s =>
+    sweepHold res bs fs (ch + 1) { s with activeDep := upd s.activeDep ch [], plainVoltage := upd s.plainVoltage ch b }
+  | b :: bs, some facs :: fs, ch, s =>
+    sweepHold res bs fs (ch + 1)
+      { s with activeDep := upd s.activeDep ch (depKey res facs),
+               depStates := upd2 s.depStates ch (depKey res facs) ⟨b, s.iterations⟩ }
+  | _, _, _, s => s
+
+/-- an entry present in `a` is different in `b`, looking at the registers `g` and channels `< nch` -/
+def entryChanged (res : Rat) (nch : Nat) (g : List (Nat × List Rat)) (a b : Sweep) : Bool :=
+  g.any (fun p =>
+    (a.depStates p.1 (depKey res p.2)).isSome &&
+      decide (a.depStates p.1 (depKey res p.2) ≠ b.depStates p.1 (depKey res p.2))) ||
+  (List.range nch).any (fun c =>
+    ((a.activeDep c).isSome && decide (a.activeDep c ≠ b.activeDep c)) ||
+    ((a.plainVoltage c).isSome && decide (a.plainVoltage c ≠ b.plainVoltage c)))
+
+mutual
+def sweep (res : Rat) (nch : Nat) : Node → Sweep → Sweep
+  | .hold bases factors _, s => sweepHold res bases factors 0 s
+  | .rep body count, s =>
+    let ds := depsList body
+    let pre := ds.map (fun p => s.depStates p.1 (depKey res p.2))
+    let s1 := sweepList res nch body s
+    let post := ds.map (fun p => s1.depStates p.1 (depKey res p.2))
+    let hack := !sameSet pre post
+    let bad := if hack then count == 1 else entryChanged res nch (touchesList body) s s1
+    let s2 := { s1 with flagged := s1.flagged || bad }
+    if hack then sweepList res nch body s2 else s2
+  | .iter body length, s =>
+    let s1 := sweepList res nch body { s with iterations := s.iterations ++ [0] }
+    if length > 1 then
+      let s2 := sweepList res nch body { s1 with iterations := s1.iterations.dropLast ++ [length - 1] }
+      { s2 with iterations := s2.iterations.dropLast }
+    else { s1 with iterations := s1.iterations.dropLast }
+def sweepList (res : Rat) (nch : Nat) : List Node → Sweep → Sweep
+  | [], s => s
+  | n :: ns, s => sweepList res nch ns (sweep res nch n s)
+end
+
+/-- PF-22 class predicate -/
+def inPF22 (res : Rat) (nch : Nat) (prog : List Node) : Bool :=
+  (sweepList res nch prog Sweep.init).flagged
+
+/-- the fragment for which `vm_translate_partial` is proved: programs of the shape the builder produces,
+outside the PF-22 class (in particular every program without repetition nodes), with faithful keys
+(outside the depth-clash and resolution-collision classes) and outside the zero-key class -/
+def inFragment (res : Rat) (nch : Nat) (prog : List Node) : Bool :=
+  !inPF22 res nch prog && wellFormedList nch 0 prog &&
+    keyInj res (touchesList prog) && separated res (touchesList prog) (plainsList prog)
+
+/-! ## Line protocol -/
 open Sexp
 
+def errName : Err → String
+  | .assertion => "assertion"
+  | .keyError => "key_error"
+  | .indexError => "index_error"
+  | .zeroDivision => "zero_division"
+  | .notImplemented => "not_implemented"
+  | .fuel => "fuel"
+
+def errS (e : Err) : Sexp := .list [.atom "error", .atom (errName e)]
+
+def optRatS : Option Rat → Sexp
+  | none => .atom "nan"
+  | some r => ofRat r
+
+def optRat? : Sexp → Option (Option Rat)
+  | .atom "nan" => some none
+  | s => (rat? s).map some
+
+def keyS (k : Key) : Sexp := .list (k.map ofInt)
+
+def cmdS : Cmd → Sexp
+  | .set ch v k => .list [.atom "set", ofNat ch, ofRat v, keyS k]
+  | .inc ch v k => .list [.atom "inc", ofNat ch, ofRat v, keyS k]
+  | .wait d => .list [.atom "wait", ofRat d]
+  | .label i c => .list [.atom "label", ofNat i, ofInt c]
+  | .jmp i => .list [.atom "jmp", ofNat i]
+
+def cmd? : Sexp → Option Cmd
+  | .list [.atom "set", ch, v, k] => do
+      pure (.set (← nat? ch) (← rat? v) (← listOf? int? k))
+  | .list [.atom "inc", ch, v, k] => do
+      pure (.inc (← nat? ch) (← rat? v) (← listOf? int? k))
+  | .list [.atom "wait", d] => do pure (.wait (← rat? d))
+  | .list [.atom "label", i, c] => do pure (.label (← nat? i) (← int? c))
+  | .list [.atom "jmp", i] => do pure (.jmp (← nat? i))
+  | _ => none
+
+def factor? : Sexp → Option (Option (List Rat))
+  | .atom "none" => some none
+  | s => (listOf? rat? s).map some
+
+partial def node? : Sexp → Option Node
+  | .list [.atom "hold", bases, factors, dur] => do
+      pure (.hold (← listOf? rat? bases) (← listOf? factor? factors) (← rat? dur))
+  | .list (.atom "rep" :: count :: body) => do
+      pure (.rep (← body.mapM node?) (← nat? count))
+  | .list (.atom "iter" :: len :: body) => do
+      pure (.iter (← body.mapM node?) (← nat? len))
+  | _ => none
+
+def histS (h : History) : Sexp :=
+  .list (h.map (fun p => .list [ofRat p.1, .list (p.2.map optRatS)]))
+
+def hist? : Sexp → Option History :=
+  listOf? (fun s => match s with
+    | .list [t, vs] => do pure ((← rat? t), (← listOf? optRat? vs))
+    | _ => none)
+
+def driverFuel : Nat := 20000000
+
 def handle : List Sexp → Sexp
-  | _ => Sexp.err "c17-not-implemented"
+  | [.atom "run", nch, res, prog] =>
+    match nat? nch, rat? res, listOf? node? prog with
+    | some nch, some res, some prog =>
+      let spec := unrollStairs prog
+      let cls : List Sexp := [
+        .list [.atom "spec", histS (asHistory spec.1), ofRat spec.2],
+        .list [.atom "class",
+          .list [.atom "pf22", ofBool (inPF22 res nch prog)],
+          .list [.atom "depth", ofBool (inDepthClash res prog)],
+          .list [.atom "zerokey", ofBool (inZeroKey res prog)],
+          .list [.atom "rescollision", ofBool (resCollision res prog)],
+          .list [.atom "fragment", ofBool (inFragment res nch prog)]]]
+      match translate res prog with
+      | .error e => .list ([.atom "translate-error", .atom (errName e)] ++ cls)
+      | .ok cmds =>
+        let c := .list (.atom "cmds" :: cmds.map cmdS)
+        match run driverFuel nch cmds with
+        | .error e => .list ([.atom "run-error", .atom (errName e), c] ++ cls)
+        | .ok (h, t) => .list ([.atom "ok", c, .list [.atom "hist", histS h, ofRat t]] ++ cls)
+    | _, _, _ => Sexp.err "bad-args"
+  | [.atom "vm", nch, cmds] =>
+    match nat? nch, listOf? cmd? cmds with
+    | some nch, some cmds =>
+      match run driverFuel nch cmds with
+      | .error e => errS e
+      | .ok (h, t) => .list [.atom "ok", histS h, ofRat t]
+    | _, _ => Sexp.err "bad-args"
+  | [.atom "scale", amps, offs, cmds] =>
+    match listOf? rat? amps, listOf? rat? offs, listOf? cmd? cmds with
+    | some amps, some offs, some cmds =>
+      match scale amps offs cmds with
+      | .error e => errS e
+      | .ok cs => .list (.atom "ok" :: cs.map cmdS)
+    | _, _, _ => Sexp.err "bad-args"
+  | [.atom "affine", amps, offs, h] =>
+    match listOf? rat? amps, listOf? rat? offs, hist? h with
+    | some amps, some offs, some h => .list [.atom "ok", histS (affineHist amps offs h)]
+    | _, _, _ => Sexp.err "bad-args"
+  | [.atom "judge", tol, expected, got] =>
+    match rat? tol, hist? expected, hist? got with
+    | some tol, some e, some g => .list [.atom "judge", .atom (judgeStairs tol 0 e g)]
+    | _, _, _ => Sexp.err "bad-args"
+  | _ => Sexp.err "c17-unknown-request"
 
 end QP.C17
